@@ -595,6 +595,17 @@ type DerArtifact struct {
 
 // ApplyDer applies one mutation of Inputs.tla to node t of the artifact.
 func (a *DerArtifact) ApplyDer(t *Node, op, arg string, rng *rand.Rand) error {
+	// a target resolved on the seed may have been detached by an earlier mutation of the program
+	// (its ancestor dropped or replaced): the later mutation then has nothing to act on
+	for n := t; n != nil; n = n.Parent {
+		if n.Parent == nil {
+			if n != a.Root {
+				return ErrNA
+			}
+		} else if n.index() < 0 {
+			return ErrNA
+		}
+	}
 	switch op {
 	case "Truncate", "ByteNoise":
 		a.Posts = append(a.Posts, t.post(op, arg))
